@@ -310,7 +310,7 @@ func rxGroupsOf(pattern string) (int, bool) {
 
 // C01: every entry point is total (panic-freedom skeleton).
 func C01(p *core.Program, r *core.Report) {
-	r.Explanation = "Necessary conditions of `never panics, returns error or a div`, decided on every path of the module code reachable from the entry points. T1 (nil links): a *html.Node obtained from a link field (Parent/FirstChild/LastChild/PrevSibling/NextSibling), from a function that may return nil, or from a map lookup may only be dereferenced (field access, or passed to a callee that dereferences that parameter without its own test - computed as interprocedural summaries over the module, go-shiori/dom and the html.Node methods) where a nil test of that value excludes nil (guard-cut: with all `v != nil` edges removed the dereference must be unreachable); the remaining sites are reviewed exceptions naming the DOM invariant. T2 (cross-object bounds): a string/slice may be sliced at an offset that is the length of ANOTHER value only under a case-sensitive HasPrefix of exactly these two values or a length comparison. T3 (partial operations): every constant index, single-result type assertion and integer division is guarded by a length/kind/zero test of the same value, is structurally safe (strings.Split()[0], full regexp submatches), or reviewed. T4: start/end placeholders are balanced (the retainer pops one start per end; shared with C07). T5: Apply returns an error or a Result whose Node was set to a fresh div, on every path. T6: module code starts no goroutine (a fault in one could not be recovered by the caller). T7 (never loops): every loop of reachable module code has a recognised variant - an exhausted iterator, an integer counter moving towards a bound that cannot run away (including delete-and-stay loops and steps of 1 + a non-negative counter field), or a node cursor replaced by a node one or more links away in a single direction of a finite tree. T9 (nil records): a pointer to one of the module's own record types that a module function may answer as nil (explicit nil, or the answer of another such function; after expansion of helpers: a merge with a nil edge) is dereferenced only where a nil test of that value excludes nil. T10 (nested maps): an update outer[k][x]=v is reached only through the creation of the entry (outer[k]=make) unless the entry was found to exist, and only made maps are stored as entries. T8: every recursive call passes a strict descendant of the node it was given (one reviewed document-order walk in the page-number finder). T11 (search answers): a slice bound that is the answer of strings.Index & co. (plus a constant below 1) is reachable only where the search is known to have succeeded - a test of that answer, or a successful search in the same string for a constant needle containing the bound's needle. T12: a pointer parameter of an entry point is dereferenced only under a nil test. T9 also covers *url.URL locals that start out nil (a method of *url.URL called on the value is a dereference); with several nil edges, each edge is discharged by the edges that contradict the condition selecting it."
+	r.Explanation = "Necessary conditions of `never panics, returns error or a div`, decided on every path of the module code reachable from the entry points. T1 (nil links): a *html.Node obtained from a link field (Parent/FirstChild/LastChild/PrevSibling/NextSibling), from a function that may return nil, or from a map lookup may only be dereferenced (field access, or passed to a callee that dereferences that parameter without its own test - computed as interprocedural summaries over the module, go-shiori/dom and the html.Node methods) where a nil test of that value excludes nil (guard-cut: with all `v != nil` edges removed the dereference must be unreachable); the remaining sites are reviewed exceptions naming the DOM invariant. T2 (cross-object bounds): a string/slice may be sliced at an offset that is the length of ANOTHER value only under a case-sensitive HasPrefix of exactly these two values or a length comparison. T3 (partial operations): every constant index, single-result type assertion and integer division is guarded by a length/kind/zero test of the same value, is structurally safe (strings.Split()[0], full regexp submatches), or reviewed. T4: start/end placeholders are balanced (the retainer pops one start per end; shared with C07). T5: Apply returns an error or a Result whose Node was set to a fresh div, on every path. T6: module code starts no goroutine (a fault in one could not be recovered by the caller). T7 (never loops): every loop of reachable module code has a recognised variant - an exhausted iterator, an integer counter moving towards a bound that cannot run away (including delete-and-stay loops and steps of 1 + a non-negative counter field), or a node cursor replaced by a node one or more links away in a single direction of a finite tree. T9 (nil records): a pointer to one of the module's own record types that a module function may answer as nil (explicit nil, or the answer of another such function; after expansion of helpers: a merge with a nil edge) is dereferenced only where a nil test of that value excludes nil. T10 (nested maps): an update outer[k][x]=v is reached only through the creation of the entry (outer[k]=make) unless the entry was found to exist, and only made maps are stored as entries. T8: every recursive call passes a strict descendant of the node it was given (one reviewed document-order walk in the page-number finder). T11 (search answers): a slice bound that is the answer of strings.Index & co. (plus a constant below 1) is reachable only where the search is known to have succeeded - a test of that answer, or a successful search in the same string for a constant needle containing the bound's needle. T12: a pointer parameter of an entry point is dereferenced only under a nil test. T9 also covers *url.URL locals that start out nil (a method of *url.URL called on the value is a dereference); with several nil edges, each edge is discharged by the edges that contradict the condition selecting it. T13: in internal/pagination/pattern, where offsets into URLs are kept in struct fields and compared through sums and differences of lengths, every index and slice expression with a non-constant bound is asked whether the bound is at most the length, low at most high and not negative; each question is decided by linear arithmetic (Fourier-Motzkin elimination, core/linear.go) from the branch conditions that dominate the expression, the definitions of merged values and the axioms len >= 0, -1 <= Index(...) <= len. A question about a string parameter indexed by something else than the call's own parameters must be proven; any other question must be proven when the function itself compares the two sides (a guard that does not guard), and is left to the constructor's invariants when the function compares nothing."
 	r.NotCovered = "termination beyond the loop/recursion variants of T7/T8 (third-party code, stack depth on very deep documents), relational index arithmetic on offsets stored in struct fields (pagination/pattern: not claimed), nil maps other than entries of nested maps (T10), nil pointers other than nodes and the module's record types (T9), record pointers paired with an error/ok result, panics inside third-party code and the standard library, memory exhaustion."
 
 	reach := p.ReachableFrom(p.EntryPoints()...)
